@@ -89,6 +89,14 @@ def pop3d_jobs(ck, thorough):
         # every message with RETR and TOP 0..4
         for i in range(1, n + 1):
             add(files, [(b"RETR", str(i).encode())] + [(b"TOP", b"%d %d" % (i, k)) for k in range(5)] + [(b"TOP", b"%d 1000" % i)], tag="blast")
+    # (a2) lines far longer than the server's output buffer (1024) and than the library's direct-write chunk (8192): 9216 is the
+    #      last length that fits one chunk plus the buffer
+    longpop = U.population([("new", b"1700000900.1.long", b"h: 1\n\n" + b"a" * 9216 + b"\nafter\n"),
+                            ("new", b"1700000901.2.long", b"h: 2\n\n" + b"b" * 9217 + b"\nafter\n"),
+                            ("cur", b"1700000902.3.long:2,S", b"h: 3\n\n." + b"c" * 12000 + b"\nafter\n." + b"d" * 8192 + b"\n")], t0)
+    for i in (1, 2, 3):
+        add(longpop, [(b"RETR", str(i).encode()), (b"TOP", b"%d 1" % i), (b"LIST", b""), (b"QUIT", b"")], tag="longline")
+    add(longpop, [(b"RETR", b"2"), (b"RETR", b"3"), (b"RETR", b"1"), (b"TOP", b"3 1000"), (b"QUIT", b"")], tag="longline")
     # (b) every sequence up to length L over the core command set
     L = 4 if thorough else 3
     for files in (pops[2], pops[3]) if not thorough else (pops[1], pops[2], pops[3]):
